@@ -17,9 +17,12 @@ import (
 
 	"github.com/awslabs/operatorpkg/object"
 	corev1 "k8s.io/api/core/v1"
+	apierrors "k8s.io/apimachinery/pkg/api/errors"
 	"k8s.io/apimachinery/pkg/api/resource"
 	metav1 "k8s.io/apimachinery/pkg/apis/meta/v1"
+	"k8s.io/apimachinery/pkg/runtime/schema"
 	"k8s.io/apimachinery/pkg/types"
+	"k8s.io/client-go/tools/record"
 	clock "k8s.io/utils/clock/testing"
 	"sigs.k8s.io/controller-runtime/pkg/client"
 	"sigs.k8s.io/controller-runtime/pkg/client/interceptor"
@@ -31,6 +34,8 @@ import (
 	"sigs.k8s.io/karpenter/pkg/controllers/nodeclaim/lifecycle"
 	nphash "sigs.k8s.io/karpenter/pkg/controllers/nodepool/hash"
 	provscheduling "sigs.k8s.io/karpenter/pkg/controllers/provisioning/scheduling"
+	"sigs.k8s.io/karpenter/pkg/events"
+	"sigs.k8s.io/karpenter/pkg/state/nodepoolhealth"
 	"sigs.k8s.io/karpenter/pkg/scheduling"
 	"sigs.k8s.io/karpenter/pkg/test"
 
@@ -41,6 +46,20 @@ import (
 type provider struct {
 	*fake.CloudProvider
 	itErr, driftErr error
+	createErrs      []error       // answers of the next Create calls, in order
+	created         *v1.NodeClaim // the answer once the errors are used up
+	createCalls     int
+}
+
+// Create: the launch choice is made by the harness (any permitted instance type / offering), see runSys
+func (p *provider) Create(ctx context.Context, nc *v1.NodeClaim) (*v1.NodeClaim, error) {
+	p.createCalls++
+	if len(p.createErrs) > 0 {
+		err := p.createErrs[0]
+		p.createErrs = p.createErrs[1:]
+		return nil, err
+	}
+	return p.created.DeepCopy(), nil
 }
 
 func (p *provider) GetInstanceTypes(ctx context.Context, np *v1.NodePool) ([]*cloudprovider.InstanceType, error) {
@@ -203,6 +222,12 @@ type sysEnv struct {
 	np   *v1.NodePool
 	t0   time.Time
 	ctrl *ncdisruption.Controller
+	// API faults (all switchable): status patch of NodeClaims, patch of NodeClaims / NodePools, list of NodeClaims
+	failClaimStatusPatch error
+	failClaimStatusOnce  bool
+	failClaimPatch       error
+	failPoolPatch        error
+	failClaimList        error
 }
 
 func mustQty(s string) resource.Quantity { return resource.MustParse(s) }
@@ -212,7 +237,33 @@ func newSysEnv() *sysEnv {
 	e.clk = clock.NewFakeClock(e.t0)
 	e.cp = &provider{CloudProvider: fake.NewCloudProvider()}
 	e.cp.InstanceTypes = mkCatalogue()
-	e.kube = kit.NewClient(interceptor.Funcs{})
+	e.kube = kit.NewClient(interceptor.Funcs{
+		SubResourcePatch: func(ctx context.Context, cl client.Client, sub string, obj client.Object, patch client.Patch, opts ...client.SubResourcePatchOption) error {
+			if _, ok := obj.(*v1.NodeClaim); ok && sub == "status" && e.failClaimStatusPatch != nil {
+				err := e.failClaimStatusPatch
+				if e.failClaimStatusOnce {
+					e.failClaimStatusPatch = nil
+				}
+				return err
+			}
+			return cl.SubResource(sub).Patch(ctx, obj, patch, opts...)
+		},
+		Patch: func(ctx context.Context, cl client.WithWatch, obj client.Object, patch client.Patch, opts ...client.PatchOption) error {
+			if _, ok := obj.(*v1.NodeClaim); ok && e.failClaimPatch != nil {
+				return e.failClaimPatch
+			}
+			if _, ok := obj.(*v1.NodePool); ok && e.failPoolPatch != nil {
+				return e.failPoolPatch
+			}
+			return cl.Patch(ctx, obj, patch, opts...)
+		},
+		List: func(ctx context.Context, cl client.WithWatch, list client.ObjectList, opts ...client.ListOption) error {
+			if _, ok := list.(*v1.NodeClaimList); ok && e.failClaimList != nil {
+				return e.failClaimList
+			}
+			return cl.List(ctx, list, opts...)
+		},
+	})
 	e.ctrl = ncdisruption.NewController(e.clk, e.kube, e.cp) // one controller per claim life: its instance-type cache persists
 	return e
 }
@@ -247,34 +298,55 @@ type hashCtlJSON struct {
 }
 
 // runHashController reconciles the pool through the real hash controller and records the step as its own case.
-func (e *sysEnv) runHashController(c *kit.Ctx, claimNames []string) {
+// fault: "" | "list" | "claim-patch" | "pool-patch"; foreign = claims of another pool (must stay untouched)
+func (e *sysEnv) runHashController(c *kit.Ctx, claimNames []string) { e.runHashControllerF(c, claimNames, nil, "") }
+
+func (e *sysEnv) runHashControllerF(c *kit.Ctx, claimNames, foreign []string, fault string) {
 	np := &v1.NodePool{ObjectMeta: metav1.ObjectMeta{Name: e.np.Name}}
 	e.get(np)
 	before := annTerm(np.Annotations)
 	verBefore := np.Annotations[v1.NodePoolHashVersionAnnotationKey]
-	var cb, jb []string
-	for _, n := range claimNames {
-		nc := &v1.NodeClaim{ObjectMeta: metav1.ObjectMeta{Name: n}}
-		e.get(nc)
-		cb = append(cb, claimAnnTerm(nc))
-		jb = append(jb, fmt.Sprintf("%s:%v drifted=%v", n, nc.Annotations, nc.StatusConditions().Get(v1.ConditionTypeDrifted) != nil))
+	snap := func(names []string) (terms, js []string) {
+		for _, n := range names {
+			nc := &v1.NodeClaim{ObjectMeta: metav1.ObjectMeta{Name: n}}
+			e.get(nc)
+			terms = append(terms, claimAnnTerm(nc))
+			js = append(js, fmt.Sprintf("%s:%v drifted=%v", n, nc.Annotations, nc.StatusConditions().Get(v1.ConditionTypeDrifted) != nil))
+		}
+		return
 	}
+	cb, jb := snap(claimNames)
+	fb, _ := snap(foreign)
 	h := np.Hash()
-	if _, err := nphash.NewController(e.kube, e.cp).Reconcile(e.ctx, np); err != nil {
+	injected := fmt.Errorf("injected: API call failed")
+	ft := "HNoFault"
+	switch fault {
+	case "list":
+		e.failClaimList, ft = injected, "HListFails"
+	case "claim-patch":
+		e.failClaimPatch, ft = injected, "HClaimPatchFails"
+	case "pool-patch":
+		e.failPoolPatch, ft = injected, "HPoolPatchFails"
+	}
+	managed := false
+	for _, gvk := range e.cp.GetSupportedNodeClasses() {
+		k := object.GVK(gvk)
+		if ref := np.Spec.Template.Spec.NodeClassRef; ref != nil && ref.Group == k.Group && ref.Kind == k.Kind {
+			managed = true
+		}
+	}
+	_, err := nphash.NewController(e.kube, e.cp).Reconcile(e.ctx, np)
+	e.failClaimList, e.failClaimPatch, e.failPoolPatch = nil, nil, nil
+	if err != nil && fault == "" {
 		panic(err)
 	}
 	e.get(np)
 	e.np = np
-	var ca, ja []string
-	for _, n := range claimNames {
-		nc := &v1.NodeClaim{ObjectMeta: metav1.ObjectMeta{Name: n}}
-		e.get(nc)
-		ca = append(ca, claimAnnTerm(nc))
-		ja = append(ja, fmt.Sprintf("%s:%v", n, nc.Annotations))
-	}
-	c.Count("hashctl:claims=" + fmt.Sprint(len(claimNames)) + ",pool-version-before=" + verBefore)
-	c.AddCase(fmt.Sprintf("CaseHashCtl %s %s %s %s %s", cons.str(h), before, kit.GList(cb), annTerm(np.Annotations), kit.GList(ca)),
-		hashCtlJSON{Kind: "hash-controller", Hash: h, Before: append([]string{before}, jb...), After: append([]string{fmt.Sprint(np.Annotations)}, ja...)}, "")
+	ca, ja := snap(claimNames)
+	fa, _ := snap(foreign)
+	c.Count(fmt.Sprintf("hashctl:managed=%v,fault=%s,claims=%d,foreign=%d,pool-version-before=%s,error=%v", managed, fault, len(claimNames), len(foreign), verBefore, err != nil))
+	c.AddCase(fmt.Sprintf("CaseHashCtl %s %s %s %s %s %s %s %s %s", kit.GBool(managed), ft, cons.str(h), before, kit.GList(cb), annTerm(np.Annotations), kit.GList(ca), kit.GList(fb), kit.GList(fa)),
+		hashCtlJSON{Kind: "hash-controller fault=" + fault, Hash: h, Before: append([]string{before}, jb...), After: append([]string{fmt.Sprint(np.Annotations)}, ja...)}, "")
 }
 
 // ---------------------------------------------------------------- one system case
@@ -322,6 +394,7 @@ func catalogueTerm(its []*cloudprovider.InstanceType) (string, string) {
 }
 
 var noResolveKeys []string
+var presenceCounter, skewCounter int
 
 func initNoResolve() {
 	s := map[string]bool{v1.NodeRegisteredLabelKey: true, v1.NodeInitializedLabelKey: true}
@@ -357,6 +430,10 @@ func reservedKeyList() []string {
 }
 
 type sysPlan struct {
+	static     bool // spec.replicas set: no instance-type requirement is injected by ToNodeClaim
+	unmanaged  bool // nodeClassRef of a kind the provider does not support
+	overlay    bool // the catalogue carries price / capacity overlays
+	defaultTGP bool // provscheduling.DefaultTerminationGracePeriod is set
 	preEdits   int
 	tmplLabels map[string]string
 	poolReqs   []kcall
@@ -376,6 +453,27 @@ func runSys(c *kit.Ctx, r *kit.Rand, plan sysPlan) {
 	np.Spec.Template.Spec.NodeClassRef = &v1.NodeClassReference{Group: object.GVK(nodeClass).Group, Kind: object.GVK(nodeClass).Kind, Name: nodeClass.Name}
 	np.Spec.Template.Spec.ExpireAfter = v1.MustParseNillableDuration("720h")
 	np.Spec.Disruption.Budgets = []v1.Budget{{Nodes: "10%"}}
+	if plan.static {
+		n := int64(3)
+		np.Spec.Replicas = &n
+	}
+	if plan.overlay {
+		e.cp.InstanceTypes[0].Offerings[0].ApplyPriceOverlay("+10%")
+		e.cp.InstanceTypes[2].ApplyCapacityOverlay(corev1.ResourceList{corev1.ResourceName("example.com/extra"): mustQty("1")})
+	}
+	if plan.defaultTGP {
+		provscheduling.DefaultTerminationGracePeriod = &metav1.Duration{Duration: 30 * time.Second}
+		defer func() { provscheduling.DefaultTerminationGracePeriod = nil }()
+	}
+	c.Count(fmt.Sprintf("pool:static=%v,overlay=%v,defaultTGP=%v", plan.static, plan.overlay, plan.defaultTGP))
+	if plan.unmanaged {
+		// a pool of a node class the provider does not support: the hash controller leaves it alone
+		np.Spec.Template.Spec.NodeClassRef = &v1.NodeClassReference{Group: "other.sh", Kind: "OtherNodeClass", Name: "x"}
+		kit.Apply(e.ctx, e.kube, nodeClass, np)
+		e.np = np
+		e.runHashController(c, nil)
+		return
+	}
 	validated := np.RuntimeValidate(e.ctx) == nil
 	kit.Apply(e.ctx, e.kube, nodeClass, np)
 	e.np = np
@@ -465,11 +563,109 @@ func runSys(c *kit.Ctx, r *kit.Rand, plan sysPlan) {
 	for k, v := range nc.Annotations {
 		stampAnn[k] = v
 	}
+	stampHash, stampHashOK, stampVer, stampVerOK := annOf(stampAnn)
+	pj.Pre, pj.BuiltFrom, pj.Stamp = pre, builtFrom, stampAnn
 	nc.CreationTimestamp = metav1.Time{Time: e.t0}
 	claimLabels := map[string]string{}
 	for k, v := range nc.Labels {
 		claimLabels[k] = v
 	}
+
+	// ---- steps
+	curReqs := append([]kcall{}, plan.poolReqs...)
+	kf := ""
+	var stepTerms []string
+	claimNames := []string{"claim"}
+	step := func(edit string, age time.Duration, runHash bool, fresh bool) {
+		if runHash {
+			e.runHashController(c, claimNames)
+		}
+		e.clk.SetTime(e.t0.Add(age))
+		cur := &v1.NodeClaim{ObjectMeta: metav1.ObjectMeta{Name: "claim"}}
+		e.get(cur)
+		pool := &v1.NodePool{ObjectMeta: metav1.ObjectMeta{Name: "pool"}}
+		poolExists := e.kube.Get(e.ctx, client.ObjectKeyFromObject(pool), pool) == nil
+		launched := cur.StatusConditions().Get(v1.ConditionTypeLaunched).IsTrue()
+		its, itErr := e.cp.GetInstanceTypes(e.ctx, pool)
+		catTerm, catJSON := "nocat", "error"
+		if itErr == nil {
+			t, j := catalogueTerm(its)
+			catTerm, catJSON = "(Some "+t+")", j
+		}
+		provTerm, provJSON := "PErr", "error"
+		if e.cp.driftErr == nil {
+			provTerm, provJSON = "(PReason "+cons.str(string(e.cp.Drifted))+")", string(e.cp.Drifted)
+		}
+		nh, nhok, nv, nvok := annOf(pool.Annotations)
+		ch2, chok, cv, cvok := annOf(cur.Annotations)
+		// the controller's own gates, read off the objects
+		managed := false
+		for _, nodeClassObj := range e.cp.GetSupportedNodeClasses() {
+			k := object.GVK(nodeClassObj)
+			if ref := cur.Spec.NodeClassRef; ref != nil && ref.Group == k.Group && ref.Kind == k.Kind {
+				managed = true
+			}
+		}
+		_, hasPoolLabel := cur.Labels[v1.NodePoolLabelKey]
+		active := managed && cur.DeletionTimestamp.IsZero() && hasPoolLabel && poolExists
+		patchOK := e.failClaimStatusPatch == nil
+		if _, err := e.ctrl.Reconcile(e.ctx, cur); err != nil {
+			c.Count("sys:reconcile-error")
+		}
+		e.failClaimStatusPatch = nil
+		after := &v1.NodeClaim{ObjectMeta: metav1.ObjectMeta{Name: "claim"}}
+		e.get(after)
+		obs, obsJSON := "nostr", ""
+		if cond := after.StatusConditions().Get(v1.ConditionTypeDrifted); cond != nil {
+			obs, obsJSON = optStr(cond.Reason, true), cond.Reason
+			if !cond.IsTrue() {
+				obs, obsJSON = optStr("not-true:"+cond.Reason, true), "not-true:"+cond.Reason
+			}
+		}
+		d := fmt.Sprintf("(mkD %s %s %s %s %s %s %s %d false %s %s %s %s %s)", kit.GBool(launched), optStr(nh, nhok), optStr(nv, nvok), optStr(ch2, chok), optStr(cv, cvok),
+			callsTerm(curReqs), labelsTerm(cur.Labels), int64(age/time.Second), strsTerm(wellKnownList()), strsTerm(reservedKeyList()), cons.str(cloudprovider.ReservationIDLabel), catTerm, provTerm)
+		stepTerms = append(stepTerms, fmt.Sprintf("(%s, %s, %s, %s, %s)", kit.GBool(active), kit.GBool(patchOK), kit.GBool(fresh), cons.term("dinput", d[1:len(d)-1]), obs))
+		pj.Steps = append(pj.Steps, stepJSON{Edit: edit, PoolReqs: append([]kcall{}, curReqs...), PoolAnn: pool.Annotations, ClaimAnn: cur.Annotations, Launched: launched && active && patchOK,
+			AgeS: int64(age / time.Second), Catalogue: catJSON, Provider: provJSON, Observed: obsJSON})
+		c.Count("step:" + edit + "=>" + obsJSON)
+		bucket := "age<=1h"
+		if age > time.Hour {
+			bucket = "age>1h"
+		}
+		c.Count(fmt.Sprintf("drift-branch:active=%v,patch-ok=%v,launched=%v,node-name=%v,%s,catalogue=%s,provider=%s=>%s", active, patchOK, launched, cur.Status.NodeName != "", bucket,
+			map[bool]string{true: "ok", false: "error"}[itErr == nil], map[bool]string{true: "error", false: provJSON}[e.cp.driftErr != nil], obsJSON))
+	}
+	updatePool := func(f func(np *v1.NodePool)) {
+		pool := &v1.NodePool{ObjectMeta: metav1.ObjectMeta{Name: "pool"}}
+		e.get(pool)
+		f(pool)
+		if err := e.kube.Update(e.ctx, pool); err != nil {
+			panic(err)
+		}
+	}
+	setReqs := func(cs []kcall) {
+		curReqs = cs
+		updatePool(func(np *v1.NodePool) {
+			np.Spec.Template.Spec.Requirements = nil
+			for _, k := range cs {
+				np.Spec.Template.Spec.Requirements = append(np.Spec.Template.Spec.Requirements, k.nsr())
+			}
+		})
+	}
+	updateClaim := func(f func(nc *v1.NodeClaim)) {
+		cur := &v1.NodeClaim{ObjectMeta: metav1.ObjectMeta{Name: "claim"}}
+		e.get(cur)
+		f(cur)
+		st := cur.DeepCopy()
+		if err := e.kube.Update(e.ctx, cur); err != nil {
+			panic(err)
+		}
+		st.ResourceVersion = cur.ResourceVersion
+		if err := e.kube.Status().Update(e.ctx, st); err != nil {
+			panic(err)
+		}
+	}
+	ages := []time.Duration{time.Minute, 3599 * time.Second, 3600 * time.Second, 3601 * time.Second, 2 * time.Hour}
 
 	// ---- adversarial launch: any instance type the claim permits, any available offering it permits
 	claimReqs := scheduling.NewNodeSelectorRequirementsWithMinValues(nc.Spec.Requirements...)
@@ -532,112 +728,96 @@ func runSys(c *kit.Ctx, r *kit.Rand, plan sysPlan) {
 		}
 	}
 	created.Status.ProviderID = "fake://claim"
-	nc = lifecycle.PopulateNodeClaimDetails(nc, created)
-	nc.StatusConditions().SetTrue(v1.ConditionTypeLaunched)
+	provTermL := map[string]string{}
+	for k, v := range created.Labels {
+		provTermL[k] = v
+	}
+	pj.ClaimL, pj.ProviderL = claimLabels, provTermL
+
+	// ---- the real lifecycle controller launches the claim: Launch.Reconcile, cloudProvider.Create (answers above),
+	// PopulateNodeClaimDetails, status patch; with launch faults before the successful attempt
+	kit.Apply(e.ctx, e.kube, nc)
+	e.cp.created = created
+	lc := lifecycle.NewController(e.clk, e.kube, e.cp, events.NewRecorder(&record.FakeRecorder{}), nodepoolhealth.NewState(), nil)
+	reconcileLaunch := func() {
+		cur := &v1.NodeClaim{ObjectMeta: metav1.ObjectMeta{Name: "claim"}}
+		e.get(cur)
+		_, _ = lc.Reconcile(e.ctx, cur)
+	}
+	launchFault := "none"
+	if r.Chance(1, 4) {
+		launchFault = kit.Pick(r, []string{"create-error", "generic-error", "insufficient-capacity", "nodeclass-not-ready", "status-patch-fails-once"})
+	}
+	c.Count("launch-fault:" + launchFault)
+	finish := func(final map[string]string) {
+		pj.FinalL = final
+		if kf == "" {
+			kf = presenceShape(pj.Steps, final)
+		}
+		pj.KfKey = kf
+		b, _ := json.Marshal(pj)
+		c.AddCase(fmt.Sprintf("CaseSys %s (%s, %s) %s %s %s %s %s %s %s %s", cons.str(builtFrom), optStr(stampHash, stampHashOK), optStr(stampVer, stampVerOK), kit.GBool(validated), strsTerm(noResolveKeys),
+			fmt.Sprintf("(mkPool %s (%s, %s) %s %s)", cons.str("pool"), cons.str(v1.NodeClassLabelKey(np.Spec.Template.Spec.NodeClassRef.GroupKind())), cons.str(nodeClass.Name),
+				labelsTerm(plan.tmplLabels), callsTerm(plan.poolReqs)),
+			callsTerm(podApplied), labelsTerm(claimLabels), labelsTerm(pj.ProviderL), labelsTerm(final), kit.GList(stepTerms)), pj, "sys:"+string(b))
+	}
+	switch launchFault {
+	case "create-error":
+		e.cp.createErrs = []error{cloudprovider.NewCreateError(fmt.Errorf("injected"), "InjectedReason", "injected create error")}
+	case "generic-error":
+		e.cp.createErrs = []error{fmt.Errorf("injected: provider unavailable")}
+	case "insufficient-capacity":
+		e.cp.createErrs = []error{cloudprovider.NewInsufficientCapacityError(fmt.Errorf("injected"))}
+	case "nodeclass-not-ready":
+		e.cp.createErrs = []error{cloudprovider.NewNodeClassNotReadyError(fmt.Errorf("injected"))}
+	case "status-patch-fails-once":
+		e.failClaimStatusPatch, e.failClaimStatusOnce = fmt.Errorf("injected: status patch failed"), true
+	}
+	reconcileLaunch()
+	e.failClaimStatusPatch, e.failClaimStatusOnce = nil, false
+	if launchFault != "none" {
+		// the claim is not launched (or being deleted): the drift controller must not report it
+		step("launch-failed:"+launchFault, time.Minute, r.Bool(), true)
+		if launchFault == "insufficient-capacity" || launchFault == "nodeclass-not-ready" {
+			cur := &v1.NodeClaim{ObjectMeta: metav1.ObjectMeta{Name: "claim"}}
+			e.get(cur)
+			if cur.DeletionTimestamp.IsZero() {
+				c.Fail(c.NextID(), "launch failure "+launchFault+" did not delete the NodeClaim", "", pj)
+			}
+			pj.ProviderL = map[string]string{}
+			finish(claimLabels)
+			return
+		}
+		reconcileLaunch() // second attempt: Create succeeds, or the cached answer of the first attempt is used
+	}
+	nc = &v1.NodeClaim{ObjectMeta: metav1.ObjectMeta{Name: "claim"}}
+	e.get(nc)
+	if !nc.StatusConditions().Get(v1.ConditionTypeLaunched).IsTrue() {
+		c.Fail(c.NextID(), fmt.Sprintf("lifecycle controller did not launch the claim (fault %s, %d Create calls)", launchFault, e.cp.createCalls), "", pj)
+		pj.ProviderL = map[string]string{}
+		finish(claimLabels)
+		return
+	}
+	if r.Chance(1, 3) {
+		// the lifecycle controller sees the launched claim again: nothing about its labels or stamp may change
+		reconcileLaunch()
+		nc = &v1.NodeClaim{ObjectMeta: metav1.ObjectMeta{Name: "claim"}}
+		e.get(nc)
+		c.Count("launch:reconciled-again-after-launch")
+	}
+	c.Count(fmt.Sprintf("launch:create-calls=%d", e.cp.createCalls))
 	finalL := map[string]string{}
 	for k, v := range nc.Labels {
 		finalL[k] = v
 	}
-	provTermL := provL
-	if echo {
-		provTermL = map[string]string{}
-		for k, v := range created.Labels {
-			provTermL[k] = v
-		}
-	}
-	kit.Apply(e.ctx, e.kube, nc)
-	pj.ClaimL, pj.ProviderL, pj.FinalL = claimLabels, provTermL, finalL
+	pj.FinalL = finalL
 	c.Count("sys:launched:" + ch.it.Name + "/" + ch.o.CapacityType())
-
-	// ---- steps
-	curReqs := append([]kcall{}, plan.poolReqs...)
-	kf := ""
-	var stepTerms []string
-	claimNames := []string{"claim"}
-	step := func(edit string, age time.Duration, runHash bool) {
-		if runHash {
-			e.runHashController(c, claimNames)
-		}
-		e.clk.SetTime(e.t0.Add(age))
-		cur := &v1.NodeClaim{ObjectMeta: metav1.ObjectMeta{Name: "claim"}}
-		e.get(cur)
-		pool := &v1.NodePool{ObjectMeta: metav1.ObjectMeta{Name: "pool"}}
-		e.get(pool)
-		launched := cur.StatusConditions().Get(v1.ConditionTypeLaunched).IsTrue()
-		its, itErr := e.cp.GetInstanceTypes(e.ctx, pool)
-		catTerm, catJSON := "nocat", "error"
-		if itErr == nil {
-			t, j := catalogueTerm(its)
-			catTerm, catJSON = "(Some "+t+")", j
-		}
-		provTerm, provJSON := "PErr", "error"
-		if e.cp.driftErr == nil {
-			provTerm, provJSON = "(PReason "+cons.str(string(e.cp.Drifted))+")", string(e.cp.Drifted)
-		}
-		nh, nhok, nv, nvok := annOf(pool.Annotations)
-		ch2, chok, cv, cvok := annOf(cur.Annotations)
-		if _, err := e.ctrl.Reconcile(e.ctx, cur); err != nil {
-			c.Count("sys:reconcile-error")
-		}
-		after := &v1.NodeClaim{ObjectMeta: metav1.ObjectMeta{Name: "claim"}}
-		e.get(after)
-		obs, obsJSON := "nostr", ""
-		if cond := after.StatusConditions().Get(v1.ConditionTypeDrifted); cond != nil {
-			obs, obsJSON = optStr(cond.Reason, true), cond.Reason
-			if !cond.IsTrue() {
-				obs, obsJSON = optStr("not-true:"+cond.Reason, true), "not-true:"+cond.Reason
-			}
-		}
-		d := fmt.Sprintf("(mkD %s %s %s %s %s %s %s %d false %s %s %s %s %s)", kit.GBool(launched), optStr(nh, nhok), optStr(nv, nvok), optStr(ch2, chok), optStr(cv, cvok),
-			callsTerm(curReqs), labelsTerm(cur.Labels), int64(age/time.Second), strsTerm(wellKnownList()), strsTerm(reservedKeyList()), cons.str(cloudprovider.ReservationIDLabel), catTerm, provTerm)
-		stepTerms = append(stepTerms, fmt.Sprintf("(%s, %s)", cons.term("dinput", d[1:len(d)-1]), obs))
-		pj.Steps = append(pj.Steps, stepJSON{Edit: edit, PoolReqs: append([]kcall{}, curReqs...), PoolAnn: pool.Annotations, ClaimAnn: cur.Annotations, Launched: launched,
-			AgeS: int64(age / time.Second), Catalogue: catJSON, Provider: provJSON, Observed: obsJSON})
-		c.Count("step:" + edit + "=>" + obsJSON)
-		bucket := "age<=1h"
-		if age > time.Hour {
-			bucket = "age>1h"
-		}
-		c.Count(fmt.Sprintf("drift-branch:launched=%v,%s,catalogue=%s,provider=%s=>%s", launched, bucket, map[bool]string{true: "ok", false: "error"}[itErr == nil],
-			map[bool]string{true: "error", false: provJSON}[e.cp.driftErr != nil], obsJSON))
-	}
-	updatePool := func(f func(np *v1.NodePool)) {
-		pool := &v1.NodePool{ObjectMeta: metav1.ObjectMeta{Name: "pool"}}
-		e.get(pool)
-		f(pool)
-		if err := e.kube.Update(e.ctx, pool); err != nil {
-			panic(err)
-		}
-	}
-	setReqs := func(cs []kcall) {
-		curReqs = cs
-		updatePool(func(np *v1.NodePool) {
-			np.Spec.Template.Spec.Requirements = nil
-			for _, k := range cs {
-				np.Spec.Template.Spec.Requirements = append(np.Spec.Template.Spec.Requirements, k.nsr())
-			}
-		})
-	}
-	updateClaim := func(f func(nc *v1.NodeClaim)) {
-		cur := &v1.NodeClaim{ObjectMeta: metav1.ObjectMeta{Name: "claim"}}
-		e.get(cur)
-		f(cur)
-		st := cur.DeepCopy()
-		if err := e.kube.Update(e.ctx, cur); err != nil {
-			panic(err)
-		}
-		st.ResourceVersion = cur.ResourceVersion
-		if err := e.kube.Status().Update(e.ctx, st); err != nil {
-			panic(err)
-		}
-	}
-	ages := []time.Duration{time.Minute, 3599 * time.Second, 3600 * time.Second, 3601 * time.Second, 2 * time.Hour}
 
 	// the fresh claim, first at a young age, then once past the hour (instance type check runs)
 	// (when the pool's stamp was missing or stale at build time the hash controller catches up first)
-	step("fresh", kit.Pick(r, ages[:2]), stale)
+	step("fresh", kit.Pick(r, ages[:2]), stale, true)
 	scenario := plan.scenario
-	if pj.Steps[0].Observed != "" {
+	if pj.Steps[len(pj.Steps)-1].Observed != "" {
 		// a fresh claim reported drifted: name the known input shape (if it is one) and stop here
 		kf = freshShape(plan, finalL)
 		c.Count("fresh-drifted:" + kf)
@@ -645,7 +825,7 @@ func runSys(c *kit.Ctx, r *kit.Rand, plan sysPlan) {
 	}
 	switch scenario {
 	case "fresh":
-		step("fresh-later", kit.Pick(r, ages[2:]), r.Bool())
+		step("fresh-later", kit.Pick(r, ages[2:]), r.Bool(), true)
 	case "edit-ignored":
 		updatePool(func(np *v1.NodePool) {
 			w := int32(7)
@@ -654,7 +834,7 @@ func runSys(c *kit.Ctx, r *kit.Rand, plan sysPlan) {
 			np.Spec.Limits = v1.Limits{corev1.ResourceCPU: mustQty("10")}
 			np.Spec.Disruption.ConsolidateAfter = v1.MustParseNillableDuration("5m")
 		})
-		step("edit-ignored", kit.Pick(r, ages), true)
+		step("edit-ignored", kit.Pick(r, ages), true, true)
 	case "edit-hashed":
 		which := r.Intn(4)
 		updatePool(func(np *v1.NodePool) {
@@ -670,9 +850,9 @@ func runSys(c *kit.Ctx, r *kit.Rand, plan sysPlan) {
 			}
 		})
 		runHash := !r.Chance(1, 4) // sometimes the hash controller has not caught up yet
-		step(fmt.Sprintf("edit-hashed-%d-hashctl=%v", which, runHash), kit.Pick(r, ages), runHash)
+		step(fmt.Sprintf("edit-hashed-%d-hashctl=%v", which, runHash), kit.Pick(r, ages), runHash, false)
 		if !runHash {
-			step("hash-controller-catches-up", kit.Pick(r, ages), true)
+			step("hash-controller-catches-up", kit.Pick(r, ages), true, false)
 		}
 	case "edit-requirements":
 		n := r.Range(1, 2)
@@ -687,14 +867,15 @@ func runSys(c *kit.Ctx, r *kit.Rand, plan sysPlan) {
 			}
 		}
 		setReqs(cs)
-		step("edit-requirements", kit.Pick(r, ages), true)
+		step("edit-requirements", kit.Pick(r, ages), true, false)
 		if r.Chance(1, 3) { // and back
 			setReqs(plan.poolReqs)
-			step("requirements-restored", kit.Pick(r, ages), true)
+			step("requirements-restored", kit.Pick(r, ages), true, false)
 		}
 	case "requirements-presence":
 		// presence-demanding entries on a key the claim has no label for, alone and next to an exclusion
-		shape := r.Intn(5)
+		presenceCounter++
+		shape := presenceCounter % 5
 		var add []kcall
 		switch shape {
 		case 0:
@@ -709,10 +890,16 @@ func runSys(c *kit.Ctx, r *kit.Rand, plan sysPlan) {
 			add = []kcall{{Key: k9, Op: "NotIn", Vals: []string{"a"}}, {Key: k9, Op: "DoesNotExist", Vals: []string{}}}
 		}
 		setReqs(append(append([]kcall{}, curReqs...), add...))
-		step(fmt.Sprintf("requirements-presence-%d", shape), kit.Pick(r, ages), true)
+		step(fmt.Sprintf("requirements-presence-%d", shape), kit.Pick(r, ages), true, false)
 	case "version-skew":
-		old := r.Intn(3)
+		skewCounter++
+		old := skewCounter % 5
 		updatePool(func(np *v1.NodePool) {
+			if old == 4 { // the pool lost its annotations altogether
+				delete(np.Annotations, v1.NodePoolHashVersionAnnotationKey)
+				delete(np.Annotations, v1.NodePoolHashAnnotationKey)
+				return
+			}
 			np.Annotations[v1.NodePoolHashVersionAnnotationKey] = "v2"
 			np.Annotations[v1.NodePoolHashAnnotationKey] = "1111"
 		})
@@ -724,7 +911,9 @@ func runSys(c *kit.Ctx, r *kit.Rand, plan sysPlan) {
 				nc.Annotations[v1.NodePoolHashAnnotationKey] = "2222"
 			case 1:
 				delete(nc.Annotations, v1.NodePoolHashVersionAnnotationKey)
-			case 2:
+			case 3:
+				delete(nc.Annotations, v1.NodePoolHashAnnotationKey) // current version, no hash
+			case 2, 4:
 				nc.Annotations[v1.NodePoolHashAnnotationKey] = "3333" // current version, other hash
 			}
 			if withCond {
@@ -740,15 +929,26 @@ func runSys(c *kit.Ctx, r *kit.Rand, plan sysPlan) {
 		}
 		kit.Apply(e.ctx, e.kube, other)
 		claimNames = []string{"claim", "other"}
-		if r.Chance(1, 3) {
-			step(fmt.Sprintf("version-skew-%d-before-hashctl", old), kit.Pick(r, ages), false)
+		// a claim of ANOTHER pool with an old version: none of this pool's business
+		foreign := test.NodeClaim(v1.NodeClaim{ObjectMeta: metav1.ObjectMeta{Name: "foreign", Labels: map[string]string{v1.NodePoolLabelKey: "another-pool"},
+			Annotations: map[string]string{v1.NodePoolHashAnnotationKey: "5555", v1.NodePoolHashVersionAnnotationKey: "v1"}}})
+		foreign.Spec.NodeClassRef = &v1.NodeClassReference{Group: object.GVK(nodeClass).Group, Kind: object.GVK(nodeClass).Kind, Name: nodeClass.Name}
+		kit.Apply(e.ctx, e.kube, foreign)
+		if r.Chance(1, 3) || old >= 3 {
+			step(fmt.Sprintf("version-skew-%d-before-hashctl", old), kit.Pick(r, ages), false, false)
 		}
-		step(fmt.Sprintf("version-skew-%d", old), kit.Pick(r, ages), true)
+		// the migration may hit an API fault first; the next reconcile completes it
+		if fault := kit.Pick(r, []string{"", "", "list", "claim-patch", "pool-patch"}); fault != "" {
+			e.runHashControllerF(c, claimNames, []string{"foreign"}, fault)
+			step(fmt.Sprintf("version-skew-%d-after-failed-hashctl-%s", old, fault), kit.Pick(r, ages), false, false)
+		}
+		e.runHashControllerF(c, claimNames, []string{"foreign"}, "")
+		step(fmt.Sprintf("version-skew-%d", old), kit.Pick(r, ages), false, false)
 	case "catalogue":
 		which := r.Intn(4)
 		before := r.Chance(1, 3)
 		if before { // a successful check first: fills the 30 minute cache
-			step("catalogue-check-before-change", 2*time.Hour, false)
+			step("catalogue-check-before-change", 2*time.Hour, false, false)
 		}
 		lab := finalL
 		var out []*cloudprovider.InstanceType
@@ -791,16 +991,50 @@ func runSys(c *kit.Ctx, r *kit.Rand, plan sysPlan) {
 			e.cp.itErr = fmt.Errorf("injected: GetInstanceTypes failed")
 			age = kit.Pick(r, ages[2:])
 		}
-		step(fmt.Sprintf("catalogue-%d", which), age, false)
+		step(fmt.Sprintf("catalogue-%d", which), age, false, false)
 	case "provider":
 		if r.Chance(1, 3) {
 			e.cp.driftErr = fmt.Errorf("injected: IsDrifted failed")
 		} else {
 			e.cp.Drifted = "CloudProviderDrifted"
 		}
-		step("provider", kit.Pick(r, ages), false)
+		step("provider", kit.Pick(r, ages), false, false)
 		e.cp.driftErr, e.cp.Drifted = nil, ""
-		step("provider-recovered", kit.Pick(r, ages), false)
+		step("provider-recovered", kit.Pick(r, ages), false, false)
+	case "gate":
+		// the pool is edited so that an active controller would report NodePoolDrifted; the claim is in a state (or the
+		// API in a mood) in which the controller must leave the stored condition alone
+		updatePool(func(np *v1.NodePool) { np.Spec.Template.Annotations = map[string]string{"example.com/gate": "x"} })
+		e.runHashController(c, claimNames)
+		which := kit.Pick(r, []string{"deleting", "no-nodepool-label", "pool-deleted", "unmanaged-claim", "status-patch-conflict", "status-patch-error", "node-name"})
+		switch which {
+		case "deleting":
+			cur := &v1.NodeClaim{ObjectMeta: metav1.ObjectMeta{Name: "claim"}}
+			e.get(cur)
+			if err := e.kube.Delete(e.ctx, cur); err != nil { // the termination finalizer keeps it
+				panic(err)
+			}
+		case "no-nodepool-label":
+			updateClaim(func(nc *v1.NodeClaim) { delete(nc.Labels, v1.NodePoolLabelKey) })
+		case "pool-deleted":
+			pool := &v1.NodePool{ObjectMeta: metav1.ObjectMeta{Name: "pool"}}
+			e.get(pool)
+			if err := e.kube.Delete(e.ctx, pool); err != nil {
+				panic(err)
+			}
+		case "unmanaged-claim":
+			updateClaim(func(nc *v1.NodeClaim) { nc.Spec.NodeClassRef = &v1.NodeClassReference{Group: "other.sh", Kind: "OtherNodeClass", Name: "x"} })
+		case "status-patch-conflict":
+			e.failClaimStatusPatch = apierrors.NewConflict(schema.GroupResource{Group: "karpenter.sh", Resource: "nodeclaims"}, "claim", fmt.Errorf("injected conflict"))
+		case "status-patch-error":
+			e.failClaimStatusPatch = fmt.Errorf("injected: status patch failed")
+		case "node-name":
+			updateClaim(func(nc *v1.NodeClaim) { nc.Status.NodeName = "node-1" })
+		}
+		step("gate:"+which, kit.Pick(r, ages), false, false)
+		if which == "status-patch-conflict" || which == "status-patch-error" {
+			step("gate:"+which+"-retried", kit.Pick(r, ages), false, false)
+		}
 	case "not-launched":
 		updateClaim(func(nc *v1.NodeClaim) {
 			nc.StatusConditions().SetTrueWithReason(v1.ConditionTypeDrifted, "NodePoolDrifted", "NodePoolDrifted")
@@ -810,26 +1044,9 @@ func runSys(c *kit.Ctx, r *kit.Rand, plan sysPlan) {
 				nc.StatusConditions().SetFalse(v1.ConditionTypeLaunched, "LaunchFailed", "x")
 			}
 		})
-		step("not-launched", kit.Pick(r, ages), false)
+		step("not-launched", kit.Pick(r, ages), false, false)
 	}
-	if kf == "" {
-		kf = presenceShape(pj.Steps, finalL)
-		if kf != "" {
-			c.Count("presence-lost:" + kf)
-		}
-	}
-	pj.KfKey = kf
-	nt := ""
-	if len(pj.Steps) > 0 {
-		b, _ := json.Marshal(pj)
-		nt = "sys:" + string(b)
-	}
-	sh, shok, sv, svok := annOf(stampAnn)
-	pj.Pre, pj.BuiltFrom, pj.Stamp = pre, builtFrom, stampAnn
-	c.AddCase(fmt.Sprintf("CaseSys %s (%s, %s) %s %s %s %s %s %s %s %s %s", cons.str(builtFrom), optStr(sh, shok), optStr(sv, svok), kit.GBool(validated), strsTerm(noResolveKeys),
-		fmt.Sprintf("(mkPool %s (%s, %s) %s %s)", cons.str("pool"), cons.str(v1.NodeClassLabelKey(np.Spec.Template.Spec.NodeClassRef.GroupKind())), cons.str(nodeClass.Name),
-			labelsTerm(plan.tmplLabels), callsTerm(plan.poolReqs)),
-		callsTerm(podApplied), labelsTerm(claimLabels), labelsTerm(provTermL), labelsTerm(finalL), kit.GBool(plan.scenario == "fresh"), kit.GList(stepTerms)), pj, nt)
+	finish(finalL)
 }
 
 // k8sMatch: does a node whose label for the key is (v, present) satisfy `key op vals` under Kubernetes semantics?
@@ -934,6 +1151,7 @@ func genPlan(r *kit.Rand, scenario string) sysPlan {
 	if r.Chance(1, 2) {
 		p.preEdits = r.Range(1, 2)
 	}
+	p.static, p.unmanaged, p.overlay, p.defaultTGP = r.Chance(1, 8), r.Chance(1, 25), r.Chance(1, 6), r.Chance(1, 8)
 	for i, n := 0, r.Intn(3); i < n; i++ {
 		p.tmplLabels[kit.Pick(r, []string{k1, k2, k3, k3})] = kit.Pick(r, customVals)
 	}
@@ -949,7 +1167,7 @@ func genPlan(r *kit.Rand, scenario string) sysPlan {
 }
 
 var scenarios = []string{"fresh", "fresh", "fresh", "edit-ignored", "edit-hashed", "edit-hashed", "edit-requirements", "edit-requirements", "edit-requirements",
-	"requirements-presence", "version-skew", "version-skew", "catalogue", "catalogue", "provider", "not-launched"}
+	"requirements-presence", "version-skew", "version-skew", "catalogue", "catalogue", "provider", "not-launched", "gate", "gate"}
 
 func runSystem(c *kit.Ctx) int {
 	initNoResolve()
